@@ -17,12 +17,15 @@ import (
 type ErrCase struct {
 	// ProjDir names the directory holding the spokfile ("" = proj)
 	ProjDir string `json:"proj_dir,omitempty"`
-	Src     string `json:"src"`
+	// Invoke: how spok is pointed at the project (sandbox.Box.Invoke)
+	Invoke string `json:"invoke,omitempty"`
+	Src    string `json:"src"`
 }
 
 func genErr(t *rapid.T) ErrCase {
 	c := genErrBody(t)
 	c.ProjDir = genProjDir(t)
+	c.Invoke = genInvoke(t)
 	return c
 }
 
@@ -52,7 +55,7 @@ func execErrBinary(s *ev.Shard, b *sandbox.Box, c ErrCase) *rp.Fail {
 	if strings.ContainsRune(c.Src, 0) {
 		return nil
 	}
-	if err := b.ResetAs(c.ProjDir); err != nil {
+	if err := b.ResetFor(c.ProjDir, c.Invoke); err != nil {
 		return &rp.Fail{Sig: "harness", Msg: err.Error()}
 	}
 	if err := writeProject(b, b.Proj, map[string]string{"spokfile": c.Src}); err != nil {
